@@ -175,8 +175,27 @@ Fixpoint nodup_b (l : list Z) : bool :=
 (* the structural part of the final validations of revertible_swap: which markets are looked up
    (`expect("must exist")` -> panic, Err 77) and the token-side lookups of
    validate_market_balances_excluding_the_given_token_amounts (Err 3); the numeric balance checks are C22 *)
-Definition side_ok (m : mk) (tok amt : Z) : res unit :=
-  if amt =? 0 then Ok tt else match side m tok with Some _ => Ok tt | None => Err 3 end.
+(* validate_market_balances_excluding_the_given_token_amounts, structural part: token sides (Err 3),
+   u64 sums (Err 9), and `balance_excluding` underflow (Model error, Err 4) *)
+Definition excl_add (m : mk) (acc : res (Z * Z)) (tok amt : Z) : res (Z * Z) :=
+  a <-- acc ;;
+  let '(le, se) := a in
+  if amt =? 0 then Ok (le, se) else
+  match side m tok with
+  | None => Err 3
+  | Some true => if U64_MAX <? le + amt then Err 9 else Ok (le + amt, se)
+  | Some false => if U64_MAX <? se + amt then Err 9 else Ok (le, se + amt)
+  end.
+
+Definition excl_check (m : mk) (t1 a1 t2 a2 : Z) : res unit :=
+  e <-- excl_add m (excl_add m (Ok (0, 0)) t1 a1) t2 a2 ;;
+  let '(le, se) := e in
+  if is_pure m then
+    if U64_MAX <? le + se then Err 9 else
+    if mk_bl m - (le + se) <? 0 then Err 4 else Ok tt
+  else
+    if mk_bl m - le <? 0 then Err 4 else
+    if mk_bs m - se <? 0 then Err 4 else Ok tt.
 
 Definition out_market (s : st) (id : Z) : res mk :=
   if id =? mk_id (s_cur s) then Ok (s_cur s) else
@@ -188,12 +207,14 @@ Definition final_checks (is_into : bool) (s : st) (p1 p2 : list Z) (exp1 exp2 o1
   let so := if is_into then cur else match p2 with [] => cur | _ => last_of p2 end in
   if lo =? so then
     m <-- out_market s lo ;;
-    _ <-- side_ok m exp1 o1 ;; side_ok m exp2 o2
+    excl_check m exp1 o1 exp2 o2
   else
     m1 <-- out_market s lo ;;
-    _ <-- side_ok m1 exp1 o1 ;;
+    _ <-- excl_check m1 exp1 o1 exp1 0 ;;
     m2 <-- out_market s so ;;
-    side_ok m2 exp2 o2.
+    _ <-- excl_check m2 exp2 o2 exp2 0 ;;
+    (* the current market is validated last when it was not an output market *)
+    Ok tt.
 
 (* SwapMarkets::revertible_swap (the numeric balance validations are part of C22) *)
 Definition revertible_swap (is_into : bool) (s : st) (p1 p2 : list Z)
